@@ -347,6 +347,13 @@ UNSUPPORTED = {
     'andor_value':     '        self.s0 = (self.a0.get() & 7) or 9\n        self.q0.prepare(self.s0)\n',
     'attr_not_port':   None,    # handled specially: attribute name differs from the port name
     'min_builtin':     '        self.q0.prepare(min(self.a0.get(), 9))\n',
+    # match statement forms beyond literal cases and the wildcard
+    'match_capture':   '        match self.a0.get() & 3:\n            case 0:\n                self.s0 = 7\n            case v:\n                self.s0 = (self.s0 + v) & 255\n        self.q0.prepare(self.s0)\n',
+    'match_or':        '        match self.a0.get() & 7:\n            case 1 | 2:\n                self.s0 = 7\n            case _:\n                self.s0 = (self.s0 + 1) & 255\n        self.q0.prepare(self.s0)\n',
+    'aug_assign_attr': '        self.s0 += self.a0.get() & 3\n        self.s0 &= 255\n        self.q0.prepare(self.s0)\n',
+    'walrus':          '        if (v := self.a0.get() & 3) > 1:\n            self.s0 = v\n        self.q0.prepare(self.s0)\n',
+    'nested_function': '        def f(x):\n            return x + 1\n        self.q0.prepare(f(self.a0.get()) & 255)\n',
+    'not_in':          '        if (self.a0.get() & 7) in (1, 3, 5):\n            self.s0 = 1\n        else:\n            self.s0 = 0\n        self.q0.prepare(self.s0)\n',
 }
 
 
